@@ -291,7 +291,9 @@ def run_case(case, ctx):
             viol.append(violation("window_mismatch", f"{fmt} line {li}: window expected ({tmin},{tmax}) parsed ({g.temp_min},{g.temp_max})", line=encode_line(case, li)))
         if g.idxfromfile != e["idx"]:
             viol.append(violation("index_mismatch", f"{fmt} line {li}: index expected {e['idx']} parsed {g.idxfromfile}", line=encode_line(case, li)))
-        if int(g.reaction_type) != e["expect_type"]:
+        if g.reaction_type is None:
+            viol.append(violation("type_mismatch", f"{fmt} line {li}: no reaction type decoded (expected {e['expect_type']})", line=encode_line(case, li)))
+        elif int(g.reaction_type) != e["expect_type"]:
             viol.append(violation("type_mismatch", f"{fmt} line {li}: type expected {e['expect_type']} parsed {int(g.reaction_type)}", line=encode_line(case, li)))
         if fmt == "krome" and getattr(g, "rate_string", None) != e["rate"].replace("dexp", "exp"):
             viol.append(violation("rate_text_mismatch", f"krome line {li}: rate {e['rate']!r} parsed {g.rate_string!r}"))
